@@ -298,12 +298,12 @@ def optimize_kl(likelihood_energy,
                     pass
     # /Sanity check of input
 
+    global _output_directory
+    global _save_strategy
+    # Also reset for `output_directory=None`: a previous call may have set them
+    _output_directory = output_directory
+    _save_strategy = save_strategy
     if output_directory is not None:
-        global _output_directory
-        global _save_strategy
-        _output_directory = output_directory
-        _save_strategy = save_strategy
-
         # Create all necessary subfolders
         if _MPI_master(comm(initial_index)):
             makedirs(output_directory, exist_ok=True)
